@@ -32,7 +32,12 @@ CFG = dict(
           "32 KiB+1, 64 KiB, 1 MiB} + seeded random sizes (thorough: 16 sizes up to 4 MiB + 24 random) x content classes chosen "
           "independently of the size (random, all zeros, all 0xFF, random head + zero tail starting at/just before/just after the "
           "last 32 KiB and 4 KiB boundary, zero head + random tail, alternating zero/data 4 KiB and 32 KiB blocks; all 15 classes "
-          "on the kinds that transfer bytes, random + zeros on the others), a missing source, and real faults without hooks: "
+          "on the kinds that transfer bytes, random + zeros on the others), a missing source; path spellings whose lexical "
+          "cleaning would name another file, for source and destination (<work>/<symlink to dir/sub>/../name, doubled slashes and a "
+          "trailing '/.', a file literally named '~' passed as '~' and './~', a directory literally named '~' passed as '~/name'; "
+          "cwd inside the sandbox, HOME pointing to a sandbox directory); existing destinations in every relation to the source of "
+          "size x modification time (os.Chtimes) x content, and two-step sequences onto one destination (CopyFile X->D by the code "
+          "under test, then Y->D with X's size and mtime); and real faults without hooks: "
           "destination a symlink (in the scratch directory) to /dev/full (create follows it and succeeds, every write fails with ENOSPC), and - unless running as "
           "root - an unwritable destination directory and an unreadable source; real files, one case = one call on a freshly "
           "arranged directory; non-trivial = distinct case lines"),
